@@ -2,15 +2,15 @@
 # usage: tools/try_seed.sh <patch.diff> <Cxx> [tier]   -- runs a check against a seeded regression in the scratch worktree /tmp/trial
 set -u
 PATCH=$1; PROP=$2; TIER=${3:-quick}
-WT=/tmp/trial
+WT=${TRIAL_WT:-/tmp/trial}; TAG=$(basename $WT)
 if [ ! -d $WT ]; then git -C /repo worktree add -q --detach $WT HEAD || exit 2; fi
 git -C $WT checkout -q --detach $(git -C /repo rev-parse HEAD) || exit 2
 git -C $WT checkout -q -- . 
 git -C $WT apply "$PATCH" 2>/dev/null || git -C $WT apply -3 "$PATCH" || { echo "PATCH DOES NOT APPLY"; exit 2; }; git -C $WT reset -q
 cd /verif
-cp -f evidence/$PROP.json /tmp/trial.evidence.$PROP.json 2>/dev/null
-VERIF_REPO=$WT VERIF_KEEP= ./vcheck $PROP --tier $TIER > /tmp/trial.out 2>&1; rc=$?
+cp -f evidence/$PROP.json /tmp/$TAG.evidence.$PROP.json 2>/dev/null
+VERIF_REPO=$WT VERIF_KEEP= ./vcheck $PROP --tier $TIER > /tmp/$TAG.out 2>&1; rc=$?
 git -C $WT checkout -q -- .
-cp -f /tmp/trial.evidence.$PROP.json evidence/$PROP.json 2>/dev/null   # evidence files only ever come from runs against /repo itself
-grep -E "^VIOLATION|^KNOWN|HARNESS|quick seed|thorough seed" /tmp/trial.out | grep -v "^KNOWN" | cut -c1-300 | head -12
+cp -f /tmp/$TAG.evidence.$PROP.json evidence/$PROP.json 2>/dev/null   # evidence files only ever come from runs against /repo itself
+grep -E "^VIOLATION|^KNOWN|HARNESS|quick seed|thorough seed" /tmp/$TAG.out | grep -v "^KNOWN" | cut -c1-300 | head -12
 echo "exit=$rc"
